@@ -438,8 +438,7 @@ Section ElispRoundtrip.
 
   Lemma txt_tail_delim d rest : delim_ok (txt_tail d ++ 41 :: rest).
   Proof.
-    destruct d; try (left; reflexivity).
-    right; left; reflexivity.
+    destruct d; reflexivity.
   Qed.
 
   Lemma Tl_cons first a d' : P a -> Tl false d' -> Tl first (Cons a d').
@@ -477,7 +476,7 @@ Section ElispRoundtrip.
     rewrite (pbind_eq _ _ _ _ _ (liftR_ok _ r0 D _ _ E12)).
     change (lone_dot (Some 32)) with true. cbv iota.
     destruct acc as [|x acc]; [exfalso; apply (Hacc Hc Hn); reflexivity|].
-    destruct (HPd f r2 D [32] (41 :: rest) (or_intror eq_refl) Hok HD HD' ltac:(unfold K; lia) Ha2 (or_intror (or_introl eq_refl)))
+    destruct (HPd f r2 D [32] (41 :: rest) (or_intror eq_refl) Hok HD HD' ltac:(unfold K; lia) Ha2 (eq_refl : delim_ok (41 :: rest)))
       as (r3 & E3 & Ha3 & Hk3).
     rewrite (pbind_eq _ _ _ _ _ E3).
     destruct (ws_here f r3 41 rest ltac:(lia) Ha3 close_starts_datum) as (r4 & E4 & Ha4 & Hp4 & Hk4).
@@ -535,7 +534,7 @@ Section ElispRoundtrip.
   Proof. reflexivity. Qed.
 
   Lemma vec_rest_delim l rest : delim_ok (vec_elems false l ++ 93 :: rest).
-  Proof. destruct l; [right; right|left]; reflexivity. Qed.
+  Proof. destruct l; reflexivity. Qed.
 
   Lemma Vl l : Forall P l -> forall first fuel r D acc rest, all_ert_ok l ->
     N.of_nat (list_max (map rdepth l)) < D -> D <= 128 ->
